@@ -16,32 +16,34 @@ from . import C10
 from .C09 import PoolStub, pool_hook
 
 LEVEL_TEXT = ('static analysis: (D1) copy-on-write lost-write rule over cnvlib/segmentation/*.py (a store whose target is reached through a '
-              'property / column / indexing temporary never reaches the table on pandas >= 3) plus a positive must-flow: in transfer_fields the '
-              "first bin's start (cnarr.start.iat[0]) reaches a store into column `start` of the segments' own frame and the last bin's end a "
-              'store into column `end`; (D2) the index labels yielded by iter_slices index ndarrays in transfer_fields only because the bin frame'
-              ' is reset_index()ed first, and segment_hmm, interpreted with the model / decoding stubbed, hands squash_by_groups the bins with '
-              "their own (unsmoothed) log2, one probe each, and a state series on the bins' own index; (D3) transfer_fields interpreted on "
-              'symbolic bins: per segment weight = sum of bin weights, depth = weight-averaged depth (0 when the weights sum to 0; plain count / '
-              'mean without a weight column), gene = ordered distinct names outside the ignored / antitarget names (a name recurring after '
-              "another gene is listed once), over iter_slices(bins, segments, 'outer', keep_empty=False) taken after the endpoints were stretched"
-              " (so filtered edge bins are included; the segment table's row labels may repeat); segment_none: first start, last end, probes = "
-              'number of bins, log2 = segment_mean (weight-averaged, plain mean when no weight is positive); (D4) every name in SEGMENT_METHODS '
-              'selects a branch of _do_segmentation (none falls through to the error), the CLI choices are that tuple, (D5) do_segmentation '
-              'interpreted for every method x 1 / 3 processes x save_dataframe with the pool, by_arm, the worker and concat stubbed: none / haar '
-              '/ cbs segment every arm exactly once, in order, with every option of the caller (the worker stub binds its arguments like the real'
-              ' signature), the parts are combined in arm order through GenomicArray.concat (which sorts), the R data-frame strings are stitched '
-              'in that order; flasso / hmm* segment the whole array once; an unknown method raises; pool results are consumed through '
-              "Executor.map; (D6) neither do_segmentation nor _do_segmentation may mutate the caller's array (effects fix-point). (D3b) the bins "
-              'reaching the segmenter are those surviving every enabled filter, a null-coverage bin being one with the placeholder log2 or with '
-              'depth 0. (D3c) transfer_fields as the whole-array methods call it -- a three-chromosome bin table with any edge chromosome wholly '
-              "filtered out -- leaves every segment inside its own chromosome's bin span with positive length (no stretch to another chromosome's"
-              " bins, no assertion failure); D3 also covers segments over antitarget / unnamed bins only (gene '-', not the previous segment's) "
-              'and D3b a bin whose weight equals min_weight (kept). D3 also has filtered bins lying between two segments (they belong to '
-              'neither), D3b arms whose bins are all filtered (no segment, segmenter not called), and the bins / segments pairing per chromosome '
-              'is the C07-D6 rule. (CLI) the `segment` command line(s), through a model of argparse built from the declarations in commands.py '
-              'and the real _cmd_ body interpreted with readers, library step and writers stubbed: method, threshold, --drop-low-coverage, '
-              '--drop-outliers, -p (with and without a number), --smooth-cbs, the PAR genome and the VCF options reach do_segmentation as given. '
-              'Does not decide sortedness / non-overlap / probe sums of haar and HMM output, nor which bins the outlier filter drops.')
+              "property / column / indexing temporary never reaches the table on pandas >= 3) (that the stretched endpoints reach the segments' "
+              'own frame is decided by D3 / D3c on symbolic and literal tables, not by matching the stores); (D2) the index labels yielded by '
+              'iter_slices index ndarrays in transfer_fields only because the bin frame is reset_index()ed first (the label kind is followed into'
+              " the package's helpers the values are handed to), and segment_hmm, interpreted with the model / decoding stubbed, hands "
+              "squash_by_groups the bins with their own (unsmoothed) log2, one probe each, and a state series on the bins' own index; (D3) "
+              'transfer_fields interpreted on symbolic bins: per segment weight = sum of bin weights, depth = weight-averaged depth (0 when the '
+              'weights sum to 0; plain count / mean without a weight column), gene = ordered distinct names outside the ignored / antitarget '
+              "names (a name recurring after another gene is listed once), over iter_slices(bins, segments, 'outer', keep_empty=False) taken "
+              "after the endpoints were stretched (so filtered edge bins are included; the segment table's row labels may repeat); segment_none: "
+              'first start, last end, probes = number of bins, log2 = segment_mean (weight-averaged, plain mean when no weight is positive); (D4)'
+              ' every name in SEGMENT_METHODS selects a branch of _do_segmentation (none falls through to the error), the CLI choices are that '
+              'tuple, (D5) do_segmentation interpreted for every method x 1 / 3 processes x save_dataframe with the pool, by_arm, the worker and '
+              'concat stubbed: none / haar / cbs segment every arm exactly once, in order, with every option of the caller (the worker stub binds'
+              ' its arguments like the real signature), the parts are combined in arm order through GenomicArray.concat (which sorts), the R '
+              'data-frame strings are stitched in that order; flasso / hmm* segment the whole array once; an unknown method raises; pool results '
+              "are consumed through Executor.map; (D6) neither do_segmentation nor _do_segmentation may mutate the caller's array (effects fix-"
+              'point). (D3b) the bins reaching the segmenter are those surviving every enabled filter, a null-coverage bin being one with the '
+              'placeholder log2 or with depth 0. (D3c) transfer_fields as the whole-array methods call it -- a three-chromosome bin table with '
+              "any edge chromosome wholly filtered out -- leaves every segment inside its own chromosome's bin span with positive length (no "
+              "stretch to another chromosome's bins, no assertion failure); D3 also covers segments over antitarget / unnamed bins only (gene "
+              "'-', not the previous segment's) and D3b a bin whose weight equals min_weight (kept). D3 also has filtered bins lying between two "
+              'segments (they belong to neither), D3b arms whose bins are all filtered (no segment, segmenter not called), and the bins / '
+              "segments pairing per chromosome is the C07-D6 rule. The HMM methods' segments are the runs of equal state within a chromosome / "
+              'arm: squash_by_groups on literal tables, unused levels and empty tables included (C14-D2 rule). (CLI) the `segment` command '
+              'line(s), through a model of argparse built from the declarations in commands.py and the real _cmd_ body interpreted with readers, '
+              'library step and writers stubbed: method, threshold, --drop-low-coverage, --drop-outliers, -p (with and without a number), '
+              '--smooth-cbs, the PAR genome and the VCF options reach do_segmentation as given. Does not decide sortedness / non-overlap / probe '
+              'sums of haar and HMM output, nor which bins the outlier filter drops.')
 TECHNIQUE = "copy-on-write lost-write lint + must-flow; index-kind lint; abstract interpretation of the aggregation; registry / effect rules"
 
 TF = "cnvlib.segmentation.transfer_fields"
